@@ -6,7 +6,6 @@ from typing import (
     Dict,
     Iterable,
     Optional,
-    Set,
     Tuple,
     Type,
     TypeVar,
@@ -229,7 +228,7 @@ class FieldCheckInfo(CheckInfo):  # pylint:disable=too-few-public-methods
 
     def __init__(
         self,
-        fields: Set[Union[str, FieldInfo]],
+        fields: Iterable[Union[str, FieldInfo]],
         check_fn: AnyCallable,
         regex: bool = False,
         **check_kwargs: Any,
@@ -272,7 +271,7 @@ def check(*fields, regex: bool = False, **check_kwargs) -> ClassCheck:
         setattr(
             check_method,
             CHECK_KEY,
-            FieldCheckInfo(set(fields), check_fn, regex, **check_kwargs),
+            FieldCheckInfo(tuple(fields), check_fn, regex, **check_kwargs),
         )
         return check_method
 
